@@ -65,7 +65,7 @@ def main():
         ],
         "checks": [],
         "not_applicable": [],
-        "notes": "Technique family: deterministic simulation with fault injection. See DESIGN.md. Exit codes: 0 held, 1 VIOLATION, 2 infrastructure trouble (never a verdict).",
+        "notes": "Technique family: deterministic simulation with fault injection. See DESIGN.md. Exit codes: 0 held, 1 VIOLATION, 2 infrastructure trouble (never a verdict). Every check first replays corpus/<id>/*.json (recorded failing cases of repaired defects and of deliberately seeded changes, see DESIGN.md section 0 item 11 and section 12), then runs its seeded search; known-findings.txt lists repaired (fixed:) and recorded (known:) defects.",
     }
     for pid in props:
         if pid in checks:
